@@ -244,7 +244,8 @@ Proof.
   - destruct (get_full m id) as [[j e]|] eqn:Ef.
     + destruct (Nat.eqb i j && name_eqb id e); [|discriminate].
       inversion Hi as [Hm]. subst m'. exact Hw.
-    + apply some_inj in Hi. subst m'.
+    + destruct (get_index m i) as [occ|] eqn:Eocc; [discriminate|].
+      apply some_inj in Hi. subst m'.
       pose proof (wf_get_full_none _ _ Hw Ef) as Hn.
       pose proof (clobbers_false_slot _ _ _ Hw Hn Hc) as Hs.
       apply (wf_extend m _ id i Hw Hn Hs).
@@ -262,7 +263,8 @@ Proof.
   - destruct (get_full m id) as [[j e]|] eqn:Ef.
     + destruct (Nat.eqb k j && name_eqb id e); [|discriminate].
       inversion Hi as [Hm]. subst m'. exact Hn.
-    + apply some_inj in Hi. subst m'. rewrite insert_at_index_of.
+    + destruct (get_index m k) as [occ|] eqn:Eocc; [discriminate|].
+      apply some_inj in Hi. subst m'. rewrite insert_at_index_of.
       pose proof (wf_get_full_none _ _ Hw Ef) as Hnone.
       destruct (name_eqb n id) eqn:E; [|exact Hn].
       apply name_eqb_eq in E. subst n. rewrite Hnone in Hn. discriminate.
@@ -285,7 +287,8 @@ Proof.
       * unfold get_full in Ef. destruct (get_index_of m id) as [j|]; [|discriminate].
         destruct (get_index m j); [|discriminate]. inversion Ef as [[Hj He]]. reflexivity.
       * intros k' Hk. inversion Hk as [Hk']. reflexivity.
-    + apply some_inj in Hi. subst m'. exists k. split.
+    + destruct (get_index m k) as [occ|] eqn:Eocc; [discriminate|].
+      apply some_inj in Hi. subst m'. exists k. split.
       * rewrite insert_at_index_of. rewrite name_eqb_refl. reflexivity.
       * intros k' Hk. inversion Hk as [Hk']. reflexivity.
   - apply some_inj in Hi. subst m'. destruct (get_index_of m id) as [j|] eqn:E.
@@ -364,19 +367,66 @@ Proof.
   split; [exact Hw|exact Hall].
 Qed.
 
-(* 6: the no-clobber premise is necessary: two names with the same IDX build successfully and
-   leave a map in which the first name resolves to a slot that holds the second name *)
-Theorem string_map_clobber_refuted : exists ls m, build_strings ls = Some m /\ ~ wf m.
+(* 6 (after fix 09): an explicit IDX that names a slot held by a different ID is an error, so a
+   successful build never clobbers and the no-clobber premise follows from success *)
+Lemma insert_conflict_is_error : forall m id i e,
+  get_index_of m id = None -> get_index m i = Some e -> insert m id (Some i) = None.
 Proof.
-  exists [([65%N], Some 1); ([66%N], Some 1)].
-  eexists. split; [vm_compute; reflexivity|].
-  intros [Hw1 Hw2].
-  assert (get_index_of
-            {| entries := [Some PASS; Some [66%N]];
-               indices := [([66%N], 1); ([65%N], 1); (PASS, 0)] |} [65%N] = Some 1) as H
-    by reflexivity.
-  apply Hw1 in H. vm_compute in H. discriminate H.
+  intros m id i e Hn Hs. unfold insert. rewrite (get_full_none_of_none _ _ Hn). rewrite Hs. reflexivity.
 Qed.
+
+Lemma insert_some_no_clobber : forall m id idx m',
+  insert m id idx = Some m' -> clobbers m id idx = false.
+Proof.
+  intros m id idx m' Hi. unfold clobbers. destruct idx as [i|]; [|reflexivity].
+  destruct (get_index_of m id) as [j|] eqn:En; [reflexivity|].
+  destruct (get_index m i) as [e|] eqn:Es; [|reflexivity].
+  rewrite (insert_conflict_is_error m id i e En Es) in Hi. discriminate Hi.
+Qed.
+
+Lemma build_no_clobber : forall ls m0 m, build_from m0 ls = Some m -> no_clobber_from m0 ls = true.
+Proof.
+  induction ls as [|[id idx] t IH]; intros m0 m Hb; [reflexivity|].
+  rewrite build_from_cons in Hb. rewrite no_clobber_from_cons.
+  destruct (insert m0 id idx) as [m1|] eqn:Ei; [|discriminate].
+  rewrite (insert_some_no_clobber _ _ _ _ Ei). cbn [negb andb]. apply (IH m1 m Hb).
+Qed.
+
+Theorem string_map_resolve_built : forall m0 ls m,
+  wf m0 -> build_from m0 ls = Some m ->
+  wf m /\
+  (forall id idx, In (id, idx) ls ->
+     exists i, get_index_of m id = Some i /\ get_index m i = Some id /\
+               (forall k, idx = Some k -> i = k)) /\
+  (forall n i, get_index_of m0 n = Some i -> get_index_of m n = Some i).
+Proof.
+  intros m0 ls m Hw Hb. apply (string_map_resolve m0 ls m Hw Hb (build_no_clobber ls m0 m Hb)).
+Qed.
+
+Corollary build_strings_resolve_built : forall ls m,
+  build_strings ls = Some m ->
+  wf m /\
+  (forall id idx, In (id, idx) ls ->
+     exists i, get_index_of m id = Some i /\ get_index m i = Some id /\
+               (forall k, idx = Some k -> i = k)) /\
+  get_index_of m PASS = Some 0 /\ get_index m 0 = Some PASS.
+Proof. intros ls m Hb. apply (build_strings_resolve ls m Hb (build_no_clobber _ _ _ Hb)). Qed.
+
+Corollary build_contigs_resolve_built : forall ls m,
+  build_contigs ls = Some m ->
+  wf m /\
+  (forall id idx, In (id, idx) ls ->
+     exists i, get_index_of m id = Some i /\ get_index m i = Some id /\
+               (forall k, idx = Some k -> i = k)).
+Proof. intros ls m Hb. apply (build_contigs_resolve ls m Hb (build_no_clobber _ _ _ Hb)). Qed.
+
+(* the former class header-idx-conflict-accepted: two IDs with one IDX, and an IDX that names
+   the slot an earlier line got by order of appearance, are errors *)
+Theorem string_map_conflict_is_error :
+  build_strings [([65%N], Some 1); ([66%N], Some 1)] = None /\
+  build_strings [([65%N], None); ([66%N], Some 1)] = None /\
+  build_contigs [([65%N], Some 1); ([66%N], Some 1)] = None.
+Proof. repeat split; reflexivity. Qed.
 
 (* non-vacuity: mixed explicit / implicit positions (test_from_str_with_mixed_positions):
    NS IDX=1, PASS IDX=0, q10 IDX=3, q15 IDX=4, q20, NS *)
@@ -451,7 +501,7 @@ Proof.
     + assert (clobbers m0 id (Some k) = false) as Hc
         by (unfold clobbers; rewrite Hn, Hs; reflexivity).
       assert (insert m0 id (Some k) = Some (snd (insert_at m0 k id))) as Hi.
-      { unfold insert. rewrite (get_full_none_of_none _ _ Hn). reflexivity. }
+      { unfold insert. rewrite (get_full_none_of_none _ _ Hn). rewrite Hs. reflexivity. }
       rewrite Hc, Hi. cbn [negb andb].
       apply IH; try assumption.
       * apply (insert_wf _ _ _ _ Hw Hc Hi).
